@@ -159,6 +159,16 @@ def run_prop(prop, tier):
                 good.append(r)
         wf.run_frames_oracle(good, model, bres, chk)
         wf.run_noformat_oracle(good, model, bres, chk)
+        # ... and after objects of one logical file were renamed / re-referenced and the file written again
+        rr = [r for r in wf.rewrite_runs(prop, tier, model, bres, chk, 40, 400)
+              if bres.ok and wf.oracle_readable(r, chk, 'c18-rewrite')]
+        before = len(chk.failures)
+        for r in rr:
+            wf.oracle_fidelity(r, chk)
+        wf.run_frames_oracle(rr, model, bres, chk)
+        wf.run_noformat_oracle(rr, model, bres, chk)
+        for f in chk.failures[before:]:
+            f['key'] = 'rewrite:' + f['key']
     if prop in ('C07', 'C09'):
         # objects renamed / moved to another origin after a first write, then the same DLISFile written again
         for r in wf.rewrite_runs(prop, tier, model, bres, chk, 60, 500):
